@@ -209,7 +209,57 @@ func Project(v cty.Value) (out J) {
 	return project(v)
 }
 
-func project(v cty.Value) J {
+// Inspect, when set, adds the internal view obtained through the verif hook
+// (cty.VerifInspect) to every projected node: Go kind of the payload, marker
+// nesting depth, refinement struct kind, element type recorded in a set's rules.
+var Inspect = false
+
+func project(v cty.Value) J { return projectPublic(v) }
+
+// internalView flattens the hook's view of v (pre-order) next to the public type and
+// state of each node, for the result records of C06.
+func internalView(v cty.Value) []any {
+	out := []any{}
+	var rec func(v cty.Value, n cty.VerifNode)
+	rec = func(v cty.Value, n cty.VerifNode) {
+		uv, _ := v.Unmark()
+		st := "k"
+		if !uv.IsKnown() {
+			st = "unk"
+		} else if uv.IsNull() {
+			st = "null"
+		}
+		e := J{"gk": n.GoKind, "md": n.MarkDepth, "rk": n.RefKind, "ty": ProjectType(uv.Type()), "st": st}
+		if n.SetElemType != nil {
+			e["sety"] = ProjectType(*n.SetElemType)
+		}
+		out = append(out, e)
+		if st != "k" || !uv.CanIterateElements() {
+			return
+		}
+		i := 0
+		for it := uv.ElementIterator(); it.Next(); i++ {
+			_, ev := it.Element()
+			if i < len(n.Children) {
+				if uv.Type().IsSetType() {
+					// the hook lists set members in the same iteration order
+					rec(ev, n.Children[i])
+				} else {
+					rec(ev, n.Children[i])
+				}
+			} else {
+				out = append(out, J{"gk": "missing", "md": 0, "rk": "", "ty": ProjectType(ev.Type()), "st": "k"})
+			}
+		}
+		if i != len(n.Children) {
+			out = append(out, J{"gk": "extra-children", "md": 0, "rk": "", "ty": ProjectType(uv.Type()), "st": "k"})
+		}
+	}
+	guard(func() { rec(v, cty.VerifInspect(v)) })
+	return out
+}
+
+func projectPublic(v cty.Value) J {
 	uv, marks := v.Unmark()
 	ty := uv.Type()
 	out := J{"ty": ProjectType(ty), "mk": markNames(marks)}
@@ -330,5 +380,11 @@ func clampLen(n int) int {
 	return n
 }
 
-func okVal(v cty.Value) J  { return J{"ok": true, "val": Project(v)} }
+func okVal(v cty.Value) J {
+	r := J{"ok": true, "val": Project(v)}
+	if Inspect {
+		r["in"] = internalView(v)
+	}
+	return r
+}
 func failed(kind string, msg string) J { return J{"ok": false, "fail": kind, "msg": msg} }
